@@ -9,6 +9,8 @@
 //!   cb <frames>                            → `L R` per frame, then `p<tid> <distance|none>` per probed track per chunk
 //! self-contained op (one fresh manager; carries the implementation-side oracles, replayable alone):
 //!   scene <lpos> <lquat> <epos> <min> <max> <atten|none> <strength> <l> <r>   → `L R def|undef`
+//! kernel ops (public `Tweenable` impls and `ListenerInfo` methods, stateless):
+//!   qtween <qa> <qb> <amount f64> | vtween <va> <vb> <amount f64> | linterp <pos> <ori> <prev pos> <prev ori> <amount f32>
 //! vectors `x,y,z` / `x,y,z,w` (f32 bits); value `fix,<f32>` | `dist,<i0>,<i1>,<o0>,<o1>,<easing>`;
 //! tween `<imm|del:ns>;<duration ns>;<easing>`.
 use crate::probe::{self, new_log, ProbeBackend, ProbeSoundData, Signal};
@@ -190,6 +192,31 @@ fn exec(case: &[String], out: &mut Out) {
 			"init" => {
 				st = Some(new_state(pu(tok[1]) as usize, pu(tok[2]) as u32));
 				out.put("ok");
+			}
+			"qtween" => {
+				let (a, b) = (parse_q(tok[1]), parse_q(tok[2]));
+				let r = <glam::Quat as kira::Tweenable>::interpolate(
+					glam::Quat::from_xyzw(a[0], a[1], a[2], a[3]),
+					glam::Quat::from_xyzw(b[0], b[1], b[2], b[3]),
+					p64(tok[3]),
+				);
+				out.put(format!("{} {} {} {}", h32(r.x), h32(r.y), h32(r.z), h32(r.w)));
+			}
+			"vtween" => {
+				let (a, b) = (parse_v(tok[1]), parse_v(tok[2]));
+				let r = <glam::Vec3 as kira::Tweenable>::interpolate(glam::Vec3::from(a), glam::Vec3::from(b), p64(tok[3]));
+				out.put(format!("{} {} {}", h32(r.x), h32(r.y), h32(r.z)));
+			}
+			"linterp" => {
+				let li = kira::info::ListenerInfo {
+					position: mv(parse_v(tok[1])),
+					orientation: mq(parse_q(tok[2])),
+					previous_position: mv(parse_v(tok[3])),
+					previous_orientation: mq(parse_q(tok[4])),
+				};
+				let t = p32(tok[5]);
+				let (p, q) = (li.interpolated_position(t), li.interpolated_orientation(t));
+				out.put(format!("{} {} {} {} {} {} {}", h32(p.x), h32(p.y), h32(p.z), h32(q.v.x), h32(q.v.y), h32(q.v.z), h32(q.s)));
 			}
 			"scene" => {
 				let sc = parse_scene(&tok);
@@ -908,6 +935,55 @@ fn gen_sequence(rng: &mut Rng, out: &mut Vec<String>, stats: &mut Stats) {
 	push(out, stats, format!("cb {} finite", rng.range(1, 9)));
 }
 
+/// a quaternion related to `q`: equal, opposite, a tiny / small / large rotation away, orthogonal, unrelated
+fn gen_quat_near(rng: &mut Rng, q: Q4) -> Q4 {
+	let d = d4(q);
+	let rot = |angle: f64, rng: &mut Rng| -> Q4 {
+		let axis = qrot(random_unit_quat(rng), [1.0, 0.0, 0.0]);
+		let (s, c) = (angle / 2.0).sin_cos();
+		f4(qmul([axis[0] * s, axis[1] * s, axis[2] * s, c], d))
+	};
+	match rng.below(10) {
+		0 => q,
+		1 => [-q[0], -q[1], -q[2], -q[3]],
+		2 => rot(rng.pick(&[1.0e-4, 3.0e-4, 1.0e-3, 5.0e-4]), rng),
+		3 => rot(rng.uniform(0.0, 0.05), rng),
+		4 => rot(std::f64::consts::PI * rng.pick(&[0.5, 1.0, 0.999, 1.5]), rng),
+		5 => {
+			let r = rot(rng.uniform(0.0, 6.0), rng);
+			[-r[0], -r[1], -r[2], -r[3]]
+		}
+		6 => [q[3], -q[2], q[1], -q[0]], // orthogonal in R^4
+		_ => rot(rng.uniform(0.0, 6.3), rng),
+	}
+}
+fn gen_amount(rng: &mut Rng) -> f64 {
+	match rng.below(6) {
+		0 => rng.pick(&[0.0, 1.0, 0.5, 0.25, 1.0 / 3.0]),
+		_ => rng.unit(),
+	}
+}
+fn gen_kernel_op(rng: &mut Rng, stats: &mut Stats) -> String {
+	match rng.below(4) {
+		0 => {
+			stats.hit("vtween");
+			format!("vtween {} {} {}", fmt_v(gen_pos(rng)), fmt_v(gen_pos(rng)), o64(gen_amount(rng)))
+		}
+		1 => {
+			stats.hit("linterp");
+			let q = gen_quat(rng);
+			let p = gen_pos(rng);
+			let p2 = if rng.chance(1, 3) { p } else { gen_pos(rng) };
+			format!("linterp {} {} {} {} {}", fmt_v(p), fmt_q(q), fmt_v(p2), fmt_q(gen_quat_near(rng, q)), o32(gen_amount(rng) as f32))
+		}
+		_ => {
+			stats.hit("qtween");
+			let q = gen_quat(rng);
+			format!("qtween {} {} {}", fmt_q(q), fmt_q(gen_quat_near(rng, q)), o64(gen_amount(rng)))
+		}
+	}
+}
+
 pub fn gen(rng: &mut Rng, n: usize, _thorough: bool, stats: &mut Stats) -> Vec<String> {
 	let mut out = vec![];
 	for case in 0..n {
@@ -915,6 +991,11 @@ pub fn gen(rng: &mut Rng, n: usize, _thorough: bool, stats: &mut Stats) -> Vec<S
 		if case % 3 == 0 {
 			stats.hit("case_sequence");
 			gen_sequence(rng, &mut out, stats);
+		} else if case % 3 == 1 {
+			stats.hit("case_kernels");
+			for _ in 0..rng.range(2, 6) {
+				out.push(gen_kernel_op(rng, stats));
+			}
 		} else {
 			stats.hit("case_scenes");
 			for _ in 0..rng.range(1, 4) {
